@@ -130,6 +130,27 @@ impl Property for C15 {
         ]
     }
 
+    fn extra(&self, tier: Tier, seed: u64) -> ExtraResult<C15Case> {
+        let mut r = ExtraResult::default();
+        if tier != Tier::Thorough {
+            return r;
+        }
+        let seeds = vec![b"389-ds-base-devel\n\n1.3.8.4\n15.el7\nx86_64".to_vec(), b"foo\n10\n1.0\n1.fc38\nnoarch".to_vec(), b"a-1:2-3.x".to_vec()];
+        let c = fuzz::run(&fuzz::Campaign { target: "fz_nevra", runs: 1_000_000, jobs: 8, max_len: 96, seeds }, seed);
+        r.fields = c.fields;
+        r.inconclusive = c.inconclusive;
+        for a in c.artifacts {
+            if let Ok(s) = String::from_utf8(a) {
+                r.cases.push(C15Case::Arbitrary(s.clone()));
+                let f: Vec<&str> = s.split('\n').collect();
+                if f.len() >= 5 {
+                    let keep = |x: &str, extra: &str| -> String { x.chars().filter(|c| c.is_ascii_alphanumeric() || extra.contains(*c)).collect() };
+                    r.cases.push(C15Case::Nevra { name: keep(f[0], "+._-"), epoch: f[1].chars().filter(|c| c.is_ascii_digit()).take(6).collect(), version: keep(f[2], "._+~^"), release: keep(f[3], "._+~^"), arch: keep(f[4], "_") });
+                }
+            }
+        }
+        r
+    }
     fn check(&self, case: &C15Case) -> Outcome {
         let mut o = Outcome::new();
         match panics::catch(|| inner(case, &mut o)) {
